@@ -36,6 +36,7 @@ type half struct {
 	consumed int64 // bytes ever read
 	failAt   int64 // inject rerr once consumed reaches failAt (<0: never)
 	failErr  error
+	failOnce bool  // the injected error is transient: reported once, then the stream goes on
 	wake     chan struct{} // closed+replaced on every change, for unmanaged readers
 	onFault  func(kind string)
 }
@@ -79,6 +80,9 @@ func (h *half) read(b []byte) (int, error) {
 		}
 		if h.rerr != nil {
 			err := h.rerr
+			if h.failOnce && h.failAt >= 0 {
+				h.rerr, h.failAt = nil, -1
+			}
 			h.mu.Unlock()
 			return 0, err
 		}
